@@ -82,3 +82,21 @@ Example C18_example :
   /\ ctx_get (published key global (Some [[("b", ["x"]); ("a", [])]])) "aScopes" = Some []
   /\ ctx_get (published key global (Some [[("b", ["x"]); ("a", [])]])) "bearerAuthScopes" = None.
 Proof. vm_compute. repeat split. Qed.
+
+(** "publishes to the request context": whoever runs inside the wrapper after the publishing statement finds the scopes.
+    In chi, gorilla, std-http and gin the per-operation middlewares run inside the wrapper; with the publishing statement
+    before the point where the chain is entered (Proofs/ScopeOrderOk.v proves it of the template texts, regenerated on
+    every run) middlewares and handler both find them.  Publishing inside the innermost closure only is refuted: the
+    handler finds the scopes, an authenticating middleware does not. *)
+Theorem C18_published_before_the_chain_seen_by_all : forall pre mid post b,
+  ~ In KChain pre -> ~ In KHandler pre -> In KChain (mid ++ KChain :: post) -> In KHandler (mid ++ KChain :: post) ->
+  seen_by KChain (pre ++ KPublish :: mid ++ KChain :: post) b = Some true
+  /\ seen_by KHandler (pre ++ KPublish :: mid ++ KChain :: post) b = Some true.
+Proof. exact published_before_chain_seen_by_all. Qed.
+Print Assumptions C18_published_before_the_chain_seen_by_all.
+
+Theorem C18_published_in_the_closure_refuted :
+  seen_by KChain [KChain; KPublish; KHandler] false = Some false
+  /\ seen_by KHandler [KChain; KPublish; KHandler] false = Some true.
+Proof. exact published_in_the_closure_refuted. Qed.
+Print Assumptions C18_published_in_the_closure_refuted.
